@@ -268,6 +268,17 @@ func (env *Env) ident(name string) Val {
 		if v, ok := env.fr.params[name]; ok {
 			return v
 		}
+		// a variable of the enclosing function captured by this closure (requires / ensures of a closure under contract)
+		if env.atBlock == nil && env.fr.parent == nil {
+			for _, fv := range env.fr.fn.FreeVars {
+				if fv.Name() == name {
+					if _, ok := env.fr.vals[fv]; ok {
+						lv := env.fr.lvOf(fv)
+						return Val{t: ex.load(env.cur, lv), typ: lv.typ}
+					}
+				}
+			}
+		}
 	}
 	if g, ok := ex.L.contracts.GhostVars[name]; ok {
 		return env.ghostVar(g)
